@@ -120,6 +120,18 @@ def step_props(prop, outdir, log):
             "partial": [n for n in names if n.endswith("_partial")]}
 
 
+def step_coqchk(prop, log, timeout=3000):
+    """Thorough tier: re-check the compiled property file and everything it depends on with the
+    independent checker and report the axioms it relies on."""
+    rc, out = sh(["coqchk", "-silent", "-o", "-Q", ".", "Verif", "Verif.Props.%s" % prop], cwd=COQ, timeout=timeout)
+    log.append("[coqchk Props.%s] rc=%d\n%s" % (prop, rc, out[-2500:]))
+    m = re.search(r"\* Axioms:\s*(.*?)\n\s*\n", out, re.S)
+    axioms = m.group(1).strip() if m else "?"
+    bad = [k for k in ("type-in-type", "unsafe (co)fixpoints", "positivity is assumed")
+           if re.search(re.escape(k) + r":\s*<none>", out) is None]
+    return {"ok": rc == 0 and axioms == "<none>" and not bad, "rc": rc, "axioms": axioms, "not_none": bad}
+
+
 def dep_closure(prop):
     """Coq sources (relative paths) that Props/<prop>.v depends on, transitively (Verif.* only)."""
     seen, todo = set(), ["Props/%s.v" % prop]
@@ -403,6 +415,10 @@ def main(argv):
     pr = step_props(prop, outdir, log) if make_ok else {"ok": False, "obligations": 0, "discharged": 0, "theorems": [],
                                                          "axioms": [], "unprinted": [], "refuted": [], "partial": [], "rc": 1}
     proofs_ok = gen_ok and lint_ok and make_ok and pr["ok"]
+    chk = None
+    if tier == "thorough" and proofs_ok and not a.replay:
+        chk = step_coqchk(prop, log)
+        proofs_ok = proofs_ok and chk["ok"]
 
     hb_ok = step_harness_build(prop, outdir, log)
 
@@ -463,7 +479,7 @@ def main(argv):
     # broken proof / correspondence without a failing input: escalate the search
     broken = []
     if not proofs_ok:
-        broken.append("proofs: gen_ok=%s lint_ok=%s make_ok=%s props=%s" % (gen_ok, lint_ok, make_ok, json.dumps(pr)))
+        broken.append("proofs: gen_ok=%s lint_ok=%s make_ok=%s props=%s coqchk=%s" % (gen_ok, lint_ok, make_ok, json.dumps(pr), json.dumps(chk)))
     if not hb_ok:
         broken.append("correspondence: harness does not compile against /repo")
     elif r is not None:
@@ -518,6 +534,7 @@ def main(argv):
             "trusted_base": COMMON_TRUSTED + cfg.get("trusted", []),
             "theorems": pr["theorems"], "theorems_refuted": pr["refuted"], "theorems_partial": pr["partial"],
             "axioms_reported": pr["axioms"],
+            "coqchk": chk if chk is not None else "thorough tier only",
             "evaluations": total_eval,
             "distinct_nontrivial": len(r["nontrivial_keys"]) if r else 0,
             "rule": cfg.get("rule", ""),
